@@ -472,3 +472,69 @@ def wrapper_forwarding(ctx, f):
             out['paths'] += 1
             out.setdefault('per_path', []).append((p, seen_here, list(lits)))
     return out
+
+
+_ITER_BUILTINS = ('iter', 'zip', 'map', 'filter', 'enumerate', 'reversed')
+
+
+def _is_iterator_expr(v):
+    """expression that builds a one-shot iterator"""
+    if isinstance(v, ast.GeneratorExp):
+        return True
+    if isinstance(v, ast.Call):
+        if isinstance(v.func, ast.Name) and v.func.id in _ITER_BUILTINS:
+            return True
+        if isinstance(v.func, ast.Attribute) and isinstance(v.func.value, ast.Name) and v.func.value.id in ('it', 'itertools'):
+            return True
+        if isinstance(v.func, ast.Name) and v.func.id in ('cycle', 'chain', 'islice', 'count', 'repeat', 'tee'):
+            return True
+    return False
+
+
+_MUTATORS = ('append', 'extend', 'insert', 'pop', 'remove', 'clear', 'update', 'setdefault', 'popitem', 'sort', 'reverse', 'add', 'discard', '__setitem__')
+
+
+def state_between_calls(outer, inner):
+    """[(kind, name, node)] - ways the nested function `inner` of the factory `outer` (ast nodes) can carry state from one call to
+    the next: an outer-scope binding that is a one-shot iterator and is read inside (kind 'iterator'), an outer-scope name
+    mutated inside (method call / item store / augmented item store: 'mutated'), a nonlocal / global declaration ('nonlocal')"""
+    params = set(a.arg for a in inner.args.args + inner.args.kwonlyargs)
+    if inner.args.vararg:
+        params.add(inner.args.vararg.arg)
+    if inner.args.kwarg:
+        params.add(inner.args.kwarg.arg)
+    local = set(params)
+    for n in ast.walk(inner):
+        if isinstance(n, ast.Name) and isinstance(n.ctx, (ast.Store, ast.Del)):
+            local.add(n.id)
+        elif isinstance(n, ast.ExceptHandler) and n.name:
+            local.add(n.name)
+    out = []
+    for n in ast.walk(inner):
+        if isinstance(n, (ast.Nonlocal, ast.Global)):
+            for nm in n.names:
+                out.append(('nonlocal', nm, n))
+                local.discard(nm)
+    outer_bind = {}
+    for s in walk_no_nested(outer):
+        if isinstance(s, ast.Assign):
+            for tg in s.targets:
+                if isinstance(tg, ast.Name):
+                    outer_bind.setdefault(tg.id, []).append(s.value)
+    loaded = set(n.id for n in ast.walk(inner) if isinstance(n, ast.Name) and isinstance(n.ctx, ast.Load) and n.id not in local)
+    for nm in sorted(loaded):
+        for v in outer_bind.get(nm, []):
+            if _is_iterator_expr(v):
+                out.append(('iterator', nm, v))
+    for n in ast.walk(inner):
+        base = None
+        if isinstance(n, ast.Call) and isinstance(n.func, ast.Attribute) and n.func.attr in _MUTATORS:
+            base = n.func.value
+        elif isinstance(n, ast.Subscript) and isinstance(n.ctx, (ast.Store, ast.Del)):
+            base = n.value
+        while isinstance(base, ast.Subscript):
+            base = base.value
+        if isinstance(base, ast.Name) and base.id not in local and (base.id in outer_bind or base.id in
+                                                                   set(a.arg for a in outer.args.args) | {getattr(outer.args.vararg, 'arg', None), getattr(outer.args.kwarg, 'arg', None)}):
+            out.append(('mutated', base.id, n))
+    return out
